@@ -158,7 +158,7 @@ def run(chk):
     chk.compare("restriction-without-a-package-name", nn, ni, nm, spec=False)
     for c, r in zip(nn, ni):
         if r != "err":
-            chk.violate({"kind": "property", "class": "restriction-without-name", "case": lib.show_case(c), "impl": r[:300],
+            chk.violate({"kind": "property", "case": lib.show_case(c), "impl": r[:300],
                          "explanation": "a qualifier or restriction clause with no package name in front of it was accepted: the clause is silently dropped (the constraint vanishes)"})
     chk.extra["malformed_classes"] = sorted(set(kinds))
     # single-edit corruptions of valid fields: model vs implementation (ok/err and structure)
